@@ -20,7 +20,7 @@ import lib
 import universe
 
 COQ_TARGETS = ["theories/Props/C05.vo", "theories/Model/BuildTables.vo", "theories/Model/CoreTables.vo"]
-THEOREMS = ["C05_build_routes"]
+THEOREMS = ["C05_build_routes", "C05_unmarshal", "C05_marshal"]
 
 
 def prove(run: lib.Run):
